@@ -29,6 +29,7 @@ type assignmentBuilder struct {
 	rhsVar            gmodel.Var       // The variable on the right-hand side of the assignment.
 	additionalArgVars []gmodel.Var     // The additional arguments to use in the assignment.
 	funcName          string           // The name of the method being generated.
+	retError          bool             // Whether the method being generated returns an error.
 	copiers           []*bmodel.Copier // The list of copiers used in the generated code.
 }
 
@@ -50,6 +51,7 @@ func newAssignmentBuilder(
 		rhsVar:            rhsVar,
 		additionalArgVars: additionalArgs,
 		funcName:          m.Name(),
+		retError:          m.RetError(),
 	}
 }
 
@@ -254,6 +256,9 @@ func (b *assignmentBuilder) createWithConverter(lhs, rhs bmodel.Node, converter 
 	posStr := b.fset.Position(converter.Pos())
 
 	if converterNode != nil {
+		if converter.RetError() && !b.retError {
+			return nil, logger.Errorf("%v: converter %v returns an error but the method does not", posStr, converter.Converter())
+		}
 		rhsExpr := converterNode.AssignExpr()
 		logger.Printf("%v: assignment found: %v = %v, err", posStr, lhsExpr, rhsExpr)
 		return gmodel.SimpleField{LHS: lhsExpr, RHS: rhsExpr, Error: converter.RetError()}, nil
@@ -288,6 +293,9 @@ func (b *assignmentBuilder) createWithMapper(lhs, rhs bmodel.Node, mapper *optio
 	posStr := b.fset.Position(mapper.Pos())
 
 	if mappedNode != nil {
+		if mappedNode.ReturnsError() && !b.retError {
+			return nil, logger.Errorf("%v: %v returns an error but the method does not", posStr, mappedNode.AssignExpr())
+		}
 		rhsExpr := mappedNode.AssignExpr()
 		logger.Printf("%v: assignment found: %v = %v", posStr, lhs, rhs)
 		return gmodel.SimpleField{LHS: lhsExpr, RHS: rhsExpr, Error: mappedNode.ReturnsError()}, nil
@@ -324,6 +332,9 @@ func (b *assignmentBuilder) createWithTemplatedMapper(
 	posStr := b.fset.Position(mapper.Pos())
 
 	if mappedNode != nil {
+		if mappedNode.ReturnsError() && !b.retError {
+			return nil, logger.Errorf("%v: %v returns an error but the method does not", posStr, mappedNode.AssignExpr())
+		}
 		rhsExpr := mappedNode.AssignExpr()
 		logger.Printf("%v: assignment found: %v = %s", posStr, lhs, rhsExpr)
 		return gmodel.SimpleField{LHS: lhsExpr, RHS: rhsExpr, Error: mappedNode.ReturnsError()}, nil
